@@ -26,7 +26,7 @@ AutoCorrelationTransitionMatrix::AutoCorrelationTransitionMatrix(std::shared_ptr
 
   for (size_t i = 0; i < size; ++i)
   {
-    eqFreq_[i] = p;
+    eqFreq_[i] = 1. / static_cast<double>(size);
   }
 }
 
@@ -59,6 +59,19 @@ const Matrix<double>& AutoCorrelationTransitionMatrix::getPij() const
       }
     }
 
+    // Stationary distribution: state i is left with probability (1 - lambda_i), spread evenly over the other states,
+    // hence pi_i is proportional to 1 / (1 - lambda_i).
+    double sum = 0;
+    for (size_t i = 0; i < vAutocorrel_.size(); ++i)
+    {
+      eqFreq_[i] = 1. / (1. - vAutocorrel_[i]);
+      sum += eqFreq_[i];
+    }
+    for (size_t i = 0; i < vAutocorrel_.size(); ++i)
+    {
+      eqFreq_[i] /= sum;
+    }
+
     upToDate_ = true;
   }
 
@@ -67,6 +80,9 @@ const Matrix<double>& AutoCorrelationTransitionMatrix::getPij() const
 
 const std::vector<double>& AutoCorrelationTransitionMatrix::getEquilibriumFrequencies() const
 {
+  if (!upToDate_)
+    getPij(); // also refreshes the equilibrium frequencies
+
   return eqFreq_;
 }
 
